@@ -4,16 +4,28 @@
 use crate::core::Ctx;
 use std::path::PathBuf;
 
+pub mod c21;
+pub mod c22;
+pub mod c23;
 pub mod c28;
+pub mod driver_common;
 
 pub type RunFn = fn(Ctx, Option<PathBuf>) -> i32;
 
-pub const REGISTRY: &[(&str, RunFn)] = &[("C28", c28::run)];
+pub const REGISTRY: &[(&str, RunFn)] = &[
+    ("C21", c21::run),
+    ("C22", c22::run),
+    ("C23", c23::run),
+    ("C28", c28::run),
+];
 
 /// Hidden subcommands (`lv __xyz ...`) used by checks that need a fresh
 /// process linking the lalrpop library.
-pub fn hidden_subcommand(_name: &str, _args: &[String]) -> Option<i32> {
-    None
+pub fn hidden_subcommand(name: &str, args: &[String]) -> Option<i32> {
+    match name {
+        "__api" => Some(driver_common::api_main(args)),
+        _ => None,
+    }
 }
 
 /// Shared boilerplate: load a replay file or fail with exit 2.
